@@ -54,7 +54,8 @@ pub fn scenarios(tier: &str, seed: u64) -> Vec<Scn> {
                     let keep = if thorough || both_acceptable {
                         true
                     } else if is_extra {
-                        (core && sel.pct(45)) || (name.starts_with("AV||SNAP;") && prefix == Prefix::NeverSeen && entry == Entry::Http && bk != Bk::Sql2)
+                        // (the three-request scenarios are always kept on the core variants)
+                        (core && (progs.len() >= 3 || sel.pct(45))) || (name.starts_with("AV||SNAP;") && prefix == Prefix::NeverSeen && entry == Entry::Http && bk != Bk::Sql2)
                     } else {
                         core || sel.pct(12)
                     };
@@ -162,7 +163,8 @@ pub fn shard_run(prop: &str, tier: &str, seed: u64, replay: Option<&serde_json::
                     let nw = scn.programs.len();
                     let mut prio: Vec<usize> = (0..nw).collect();
                     r2.shuffle(&mut prio);
-                    let mut ch = PreemptChooser { prio, at: r2.usize(9), victim_steps: 0, taken: vec![] };
+                    // (the number of steps before the first worker is set aside cycles through 0..8)
+                    let mut ch = PreemptChooser { prio, at: (execs + *si) % 9, victim_steps: 0, taken: vec![] };
                     (execute(scn, &mut ch, true), ch.taken, false)
                 } else if random_phase {
                     let mut ch = RandChooser { rng: rnd.fork(execs as u64), taken: vec![] };
